@@ -144,6 +144,78 @@ def merge_optional(draw, spec):
     return T.set_at(t, path, new)
 
 
+NEAR = {'true': T.S('true'), 'false': T.S('false'), 'x': T.S('x'), '1.5': T.S('1.5'),
+        '~': T.S('~'), '"1"': T.S('1', '"'), '[1]': T.Q([T.S('1')]),
+        '{a: 1}': T.M([('a', T.S('1'))]), '1': T.S('1'), '2001-01-01': T.S('2001-01-01')}
+
+
+@st.composite
+def inherited_hook_cases(draw):
+    """A registered class B whose _yatiml_savorize rewrites an attribute, and a
+    registered subclass HD without hooks of its own (recognised from its
+    signature, savorized by B's hook): a document for HD in which the value that
+    the hook moves / sets is a near miss for the declared type."""
+    import copy
+    spec = copy.deepcopy(draw(gen.models(('hier', 'defaults', 'enum', 'date', 'any', 'extra'))))
+    cands = [c for c in spec['classes'] if c.get('kind', 'obj') == 'obj'
+             and not c.get('abstract') and c.get('reg', True) and not c.get('recognize')
+             and not c.get('index')]
+    if not cands:
+        return draw(cases())
+    b = draw(st.sampled_from(cands))
+    typed = [q for q in b['params'] if q.get('type') in ('int', 'float', 'str', 'bool', 'date')
+             or (isinstance(q.get('type'), list) and q['type'][0] in ('opt', 'union', 'list'))]
+    if not typed:
+        b['params'].insert(0, {'name': 'count', 'type': draw(st.sampled_from(
+            ['int', 'int', 'float', ['opt', 'int'], ['list', 'int']]))})
+        typed = [b['params'][0]]
+    q = draw(st.sampled_from(typed))
+    hd = {'name': 'HD', 'kind': 'obj', 'bases': [b['name']],
+          'params': copy.deepcopy(b['params']) + [{'name': 'hd_only', 'type': 'float'}]}
+    if b.get('extra'):
+        hd['extra'] = b['extra']
+    hd['params'] = [x for x in hd['params'] if 'default' not in x] + \
+        [x for x in hd['params'] if 'default' in x]
+    spec['classes'].append(hd)
+    spec['order'] = list(spec.get('order') or []) + ['HD']
+    how = draw(st.sampled_from(['rename', 'rename', 'set_wrong', 'set_default']))
+    near = draw(st.sampled_from(sorted(NEAR)))
+    lit = {'true': ['bool', True], 'false': ['bool', False], 'x': ['str', 'x'],
+           '1.5': ['float', '1.5'], '~': ['none'], '1': ['int', 1]}
+    if how != 'rename' and near not in lit:
+        near = 'true'
+    if how == 'rename':
+        op = ['rename', 'legacy', q['name']]
+    elif how == 'set_wrong':
+        op = ['set_wrong', q['name'], lit[near]]
+    else:
+        op = ['set_default', q['name'], lit[near]]
+    b['savorize'] = list(b.get('savorize') or []) + [op]
+    v = draw(gen.vspec_for(spec, ['ref', 'HD'], hard=False, omit_defaults=False))
+    if v is None or v[1] != 'HD':
+        return draw(cases())
+    t = gen.project(v, spec)
+    pairs = t[1]
+    if how == 'rename':
+        t[1] = [[T.S('legacy') if k[0] == 's' and k[1] == q['name'] else k,
+                 (copy.deepcopy(NEAR[near]) if k[0] == 's' and k[1] == q['name'] else x)]
+                for k, x in pairs]
+    elif how == 'set_default':
+        t[1] = [[k, x] for k, x in pairs if not (k[0] == 's' and k[1] == q['name'])]
+    wrap = draw(st.sampled_from(['hd', 'base', 'list', 'dict']))
+    if wrap == 'hd':
+        spec['doc_type'] = ['ref', 'HD']
+    elif wrap == 'base':
+        spec['doc_type'] = ['ref', b['name']]
+    elif wrap == 'list':
+        spec['doc_type'] = ['list', ['ref', b['name']]]
+        t = T.Q([t])
+    else:
+        spec['doc_type'] = ['dict', 'str', ['ref', b['name']]]
+        t = T.M([('k', t)])
+    return {'model': spec, 'text': T.render_flow(t), 'src': 'inherited_hook_' + how}
+
+
 def gen_alias(draw, t):
     subs = list(T.subtrees(t))
     if len(subs) < 3:
@@ -204,7 +276,8 @@ def check(case, ctx):
 
 def phases(tier):
     n = 560 if tier != 'thorough' else 6000
-    ph = [HypPhase('models_x_documents', cases(), n)]
+    ph = [HypPhase('models_x_documents', cases(), n),
+          HypPhase('inherited_hooks', inherited_hook_cases(), n // 8)]
     if tier == 'thorough':
         from yv import fuzzphase
         ph.append(fuzzphase.fuzz_phase('C01', 200000))
